@@ -22,7 +22,7 @@ partial def canon (sm : Bool) : Value → String
   | .kw b => "k" ++ hexOfB b
   | .buf b => "b" ++ hexOfB b
   | .tuple br l c items =>
-    let parts := (if sm then [s!"{l}:{c}"] else []) ++ items.map (canon sm)
+    let parts := (if sm then [(if l == smNone then "-1" else toString l) ++ ":" ++ (if c == smNone then "-1" else toString c)] else []) ++ items.map (canon sm)
     (if br then "[" else "(") ++ " ".intercalate parts ++ (if br then "]" else ")")
   | .array items => "@[" ++ " ".intercalate (items.map (canon sm)) ++ "]"
   | .struct ks vs => "{" ++ dict sm ks vs ++ "}"
@@ -57,11 +57,13 @@ def trStatus (r : DRun) (key : String) : DRun :=
 def trWhere (r : DRun) (key : String) : DRun :=
   { r with tr := r.tr.push s!"@{r.label}:{key}={r.p.line}:{r.p.column}" }
 
+def smStr (n : Nat) : String := if n == smNone then "-1" else toString n
+
 def produce1 (r : DRun) (wrapped : Bool) : DRun :=
   if wrapped then
     match produceWrapped r.p with
     | (some (.tuple _ l c [v]), p) =>
-      { r with p := p, tr := r.tr.push s!"@wrap#{r.nvalues}={l}:{c}", ev := r.ev.push ("v:" ++ canon true v), nvalues := r.nvalues + 1 }
+      { r with p := p, tr := r.tr.push s!"@wrap#{r.nvalues}={smStr l}:{smStr c}", ev := r.ev.push ("v:" ++ canon true v), nvalues := r.nvalues + 1 }
     | (_, p) => { r with p := p, ev := r.ev.push "v:BADWRAP" }
   else
     match produce r.p with
@@ -177,6 +179,28 @@ def runOp (scan : Scan) (r : DRun) (op : Char) (n : Nat) : DRun :=
   | 'f' => let r := drainD r; { r with p := flush r.p }
   | 'F' => { r with p := flush r.p }
   | 'R' => { r with rawerr := true }
+  | 'I' =>
+    let (v, vs) : Value × List B := match n % 5 with
+      | 0 => (.str (strBytes "ins"), strBytes "ins")
+      | 1 => (.kw (strBytes "k"), strBytes "k")
+      | 2 => (.nil, [])
+      | 3 => (.bool true, strBytes "true")
+      | _ => (.sym (strBytes "sy"), strBytes "sy")
+    -- the token that `parser/insert` finishes first may be a number: log that scan like the harness does
+    let r := match r.p.states with
+      | top :: _ => if top.consumer == Consumer.tokenchar && (checkDead r.p).isNone then logScan scan r 32 else r
+      | [] => r
+    match insert scan r.p v vs with
+    | (p, some msg) => let r := trPanic { r with p := p } "I" msg; if status r.p == .error then handleErrorD r else r
+    | (p, none) => let r := { r with p := p }; if status r.p == .error then handleErrorD r else r
+  | 'L' =>
+    match setWhere r.p (some (Int.ofNat n)) none with
+    | .error msg => trPanic r "L" msg
+    | .ok p => { r with p := p, tr := r.tr.push s!"@{r.label}:L={p.line}:{p.column}" }
+  | 'M' =>
+    match setWhere r.p (some 7) (some (Int.ofNat n)) with
+    | .error msg => trPanic r "L" msg
+    | .ok p => { r with p := p, tr := r.tr.push s!"@{r.label}:L={p.line}:{p.column}" }
   | 'E' => opEof scan r
   | 'G' => r
   | 'x' => r
